@@ -50,8 +50,11 @@ func Line(r *rand.Rand, o TextOpts) (string, string) {
 		return pick(r, []string{"---\n---", "---\n---\n---", "/-/-/-/\n---", "---\n/-/-/-/"}), "terminator-run"
 	case x < 53:
 		return "/-/-/-/", "escape-token"
-	case x < 58:
+	case x < 56:
 		return pick(r, []string{"----", "--- ", " ---", "/-/-/-/ ", "--", "/-/-/-", "---x", "x---"}), "near-terminator"
+	case x < 58:
+		// the terminator or its escape token INSIDE a line
+		return pick(r, []string{"x --- y", "x /-/-/-/ y", "a/-/-/-/", "/-/-/-/b", "key: /-/-/-/ # c", "--- and /-/-/-/"}), "terminator-inside-line"
 	case x < 66:
 		if len(o.Headers) > 0 && !o.NoHeader {
 			return pick(r, o.Headers), "addressed-header"
@@ -170,7 +173,16 @@ func Pair(r *rand.Rand, s string, creol bool) (string, string) {
 
 func pairOnce(r *rand.Rand, s string) (string, string) {
 	b := []byte(s)
-	switch r.IntN(16) {
+	switch r.IntN(18) {
+	case 16, 17:
+		// swap the escape token and the terminator wherever they occur, also inside a line
+		if i := strings.Index(s, "/-/-/-/"); i >= 0 {
+			return s[:i] + "---" + s[i+7:], "swap-escape-token-anywhere"
+		}
+		if i := strings.Index(s, "---"); i >= 0 {
+			return s[:i] + "/-/-/-/" + s[i+3:], "swap-escape-token-anywhere"
+		}
+		return s + "\nx /-/-/-/ y", "append-line"
 	case 14, 15:
 		// keep only the first k lines (what a reader sees when it stops at a line it takes for a terminator)
 		ls := strings.Split(s, "\n")
